@@ -21,7 +21,7 @@ RULE = ("dump leg: 4 coolers (both modes, fixed and variable table, weights with
         "value) columns occupy EVERY injective assignment into 6 columns for `cload pairs --field`, likewise bg2/coo value columns for "
         "`load --field`; oracle: reference binning + aggregation. zoomify leg: every -r spelling (shared with C09). Non-trivial: >=1 row "
         "dumped and >=1 option on / a non-monotone layout. Distinct by construction.")
-EXTRA_LEGS = 'round trip on every cooler of the check plus two coolers whose chromosome names are numerals (BED bin table).'
+EXTRA_LEGS = 'round trip on every cooler of the check plus two coolers whose chromosome names are numerals (BED bin table).' + ' small chunk sizes of the round trip are loaded with --max-merge 2 / 3 (two-pass merge).'
 BOUNDS = {"quick": "dump: ~20 regions per cooler incl. nested / partially overlapping -r/-r2 pairs; layouts: all 360 positional layouts + every 4th of the 720 five-column layouts",
           "thorough": "dump: + all aligned region pairs; layouts: all 360 + all 720 + every 4th six-column layout"}
 ASSUMPTIONS = ["only the count column is dumped by `cooler dump` (documented behaviour); the row ORDER is compared for the direct engine, the row SET for -f"]
